@@ -152,14 +152,14 @@ def run_case(case, ctx):
                 if t['names'] != order:
                     fail('%s format, convolved/%s.fits: rows %r, expected the %s order %r' % (
                         what, f['name'], t['names'], 'parameter-table' if fmt == 'v1' else 'cube', order), 'c07:row_order')
-                if t['filtwav'] is None or abs(t['filtwav'] - f['central']) > 1e-12 * f['central']:
+                if t['filtwav'] is None or not (abs(t['filtwav'] - f['central']) <= 1e-12 * f['central']):
                     fail('%s format: FILTWAV %r, filter central wavelength %r' % (what, t['filtwav'], f['central']),
                          'c07:filtwav')
                 if pkg['apertures'] is not None:
                     # carried over as lengths: the values in the unit the file states, whichever unit that is
                     ufac = dict((k_.lower(), 1. / v_) for k_, v_ in gen.AP_UNIT_FACTOR.items()).get(str(t['aperture_unit']).strip().lower())
                     if t['apertures'] is None or len(t['apertures']) != nap or ufac is None or \
-                            any(abs(a * ufac - pkg['apertures'][aidx[p_]]) > 1e-10 * a * ufac for p_, a in enumerate(t['apertures'])):
+                            any(not (abs(a * ufac - pkg['apertures'][aidx[p_]]) <= 1e-10 * a * ufac) for p_, a in enumerate(t['apertures'])):
                         fail('%s format: apertures %r %r, SED apertures %r AU' % (what, t['apertures'], t['aperture_unit'],
                                                                                  pkg['apertures']), 'c07:apertures')
                 spkg = c06mod.stored(pkg, fmt)
@@ -169,12 +169,12 @@ def run_case(case, ctx):
                     m = names.index(name)
                     for p_ in range(nap):
                         a = aidx[p_]   # the files keep the stored order of the aperture axis
-                        if abs(t['flux'][row][p_] - rf[m][a]) > rtol * abs(rf[m][a]) + 1e-300:
+                        if not (abs(t['flux'][row][p_] - rf[m][a]) <= rtol * abs(rf[m][a]) + 1e-300):
                             fail('%s format, convolved/%s.fits: the row labelled %s holds flux %r for the aperture of %r AU, '
                                  'the SED of %s gives %r there' % (what, f['name'], name, t['flux'][row][p_], pkg['apertures'][a]
                                                                     if pkg['apertures'] else None, name, rf[m][a]),
                                  'c07:row_holds_other_model')
-                        if abs(t['err'][row][p_] - re_[m][a]) > max(rtol, 1e-9) * abs(re_[m][a]) + 1e-300:
+                        if not (abs(t['err'][row][p_] - re_[m][a]) <= max(rtol, 1e-9) * abs(re_[m][a]) + 1e-300):
                             fail('%s format, convolved/%s.fits: the row labelled %s holds error %r for the aperture of %r AU, '
                                  'the SED of %s gives %r there' % (what, f['name'], name, t['err'][row][p_], pkg['apertures'][a]
                                                                     if pkg['apertures'] else None, name, re_[m][a]),
@@ -184,8 +184,8 @@ def run_case(case, ctx):
             for row, name in enumerate(t1['names']):
                 r2 = t2['names'].index(name)
                 for a in range(nap):
-                    if abs(t1['flux'][row][a] - t2['flux'][r2][a]) > rtol * abs(t1['flux'][row][a]) or \
-                            abs(t1['err'][row][a] - t2['err'][r2][a]) > max(rtol, 1e-9) * abs(t1['err'][row][a]):
+                    if not (abs(t1['flux'][row][a] - t2['flux'][r2][a]) <= rtol * abs(t1['flux'][row][a])) or \
+                            not (abs(t1['err'][row][a] - t2['err'][r2][a]) <= max(rtol, 1e-9) * abs(t1['err'][row][a])):
                         fail('convolved/%s.fits differs between formats for %s aperture %d: flux %r vs %r, error %r vs %r' % (
                             f['name'], name, a, t1['flux'][row][a], t2['flux'][r2][a], t1['err'][row][a], t2['err'][r2][a]),
                             'c07:formats_disagree')
@@ -295,7 +295,7 @@ def run_case(case, ctx):
                     continue
                 big = max(abs(c1), abs(c2))
                 tol = 2. * delta * math.sqrt(W * big) + W * delta ** 2 + 1e-9 * (1. + big)
-                if abs(c1 - c2) > tol:
+                if not (abs(c1 - c2) <= tol):
                     fail('remove_resolved=True, cube package, source %s, model %s: chi2 %r (best distance 10^%r kpc) when the fluxes '
                          'are held in memory, %r (10^%r kpc) when they are memory-mapped; single-precision storage explains at '
                          'most %.3g' % (src0['name'], name, c1, s1, c2, s2, tol), 'c07:formats_disagree_fit')
@@ -327,7 +327,7 @@ def run_case(case, ctx):
                         what, case['late_filter'], t['names'], 'parameter-table' if fmt == 'v1' else 'cube', order), 'c07:row_order')
                 for row, name in enumerate(t['names']):
                     for p_ in range(nap):
-                        if abs(t['flux'][row][p_] - t0['flux'][row][p_]) > 1e-12 * abs(t0['flux'][row][p_]):
+                        if not (abs(t['flux'][row][p_] - t0['flux'][row][p_]) <= 1e-12 * abs(t0['flux'][row][p_])):
                             fail('%s format, the same filter convolved later under another name: row %s holds %r, the earlier '
                                  'file has %r' % (what, name, t['flux'][row][p_], t0['flux'][row][p_]), 'c07:row_holds_other_model')
             labels.add('late_filter_after_' + case['late_filter'])
@@ -379,7 +379,7 @@ def run_grid(case, ctx):
                 fail('the two formats list different models', 'c07:fit_model_set')
             if sc1 != sc1 or sc2 != sc2:
                 continue
-            if abs(sc1 - sc2) > 1e-9 and abs(ch1 - ch2) > 1e-6 * max(1., abs(ch1)):
+            if not (abs(sc1 - sc2) <= 1e-9) and not (abs(ch1 - ch2) <= 1e-6 * max(1., abs(ch1))):
                 fail('distance range %r %s, step %r, model %s: per-file package gives scale %r (chi2 %r), cube package scale %r '
                      '(chi2 %r)' % (list(dr.value), dr.unit, case['setup']['step'], n1, sc1, ch1, sc2, ch2), 'c07:formats_disagree_fit')
     return labels, True
